@@ -51,11 +51,11 @@ type ProdStep struct {
 	FlushTO time.Duration // 0 = none
 	Quiesce bool          // take a quiescent sample (synctest.Wait) right before starting the flush
 	// faults
-	Key   int16
-	Act   bubble.Action
-	Dur   time.Duration
-	Code  int16
-	Node  int
+	Key  int16
+	Act  bubble.Action
+	Dur  time.Duration
+	Code int16
+	Node int
 }
 
 type ProdPlan struct {
@@ -73,12 +73,13 @@ var fatalCodes = []int16{kerr.MessageTooLarge.Code, kerr.InvalidTopicException.C
 
 // ProdFocus tunes the generator towards one property's interesting region.
 type ProdFocus struct {
-	SmallLimits bool // small MaxBufferedRecords/Bytes (C03)
-	NoFaults    bool
-	NoPurge     bool // exclude purge/unsafe classes (C02)
-	IdemOnly    bool
-	DelayFaults bool // only response delays as faults (C03)
-	MaxSteps    int
+	SmallLimits    bool // small MaxBufferedRecords/Bytes (C03)
+	NoFaults       bool
+	NoPurge        bool // exclude purge/unsafe classes (C02)
+	IdemOnly       bool
+	DelayFaults    bool // only response delays as faults (C03)
+	FatalCodesRare bool
+	MaxSteps       int
 }
 
 func GenProdPlan(t *rapid.T, f ProdFocus) ProdPlan {
@@ -118,10 +119,14 @@ func GenProdPlan(t *rapid.T, f ProdFocus) ProdPlan {
 	if maxSteps == 0 {
 		maxSteps = 40
 	}
+	// C02 realism: a broker that appended a batch never answers a retry of that batch with a
+	// fatal validation error, so a plan either injects fatal codes (and then no fault that
+	// can leave a batch appended-but-unacknowledged) or ambiguity faults (and no fatal codes).
+	fatalPlan := f.FatalCodesRare && rapid.IntRange(0, 4).Draw(t, "fatalplan") == 0
 	ns := rapid.IntRange(1, maxSteps).Draw(t, "nsteps")
 	kinds := []string{"produce", "produce", "produce", "produce", "flush", "sleep", "cancelctx"}
 	if !f.NoFaults {
-		kinds = append(kinds, "netfault", "netfault", "errcode", "errcode", "move", "killall", "abort")
+		kinds = append(kinds, "netfault", "netfault", "errcode", "errcode", "appenderr", "move", "killall", "abort")
 		if !f.NoPurge {
 			kinds = append(kinds, "purge", "deltopic", "mktopic")
 		}
@@ -164,17 +169,32 @@ func GenProdPlan(t *rapid.T, f ProdFocus) ProdPlan {
 			s.Act = bubble.DelayResponse
 			s.Dur = rapid.SampledFrom([]time.Duration{time.Millisecond, 50 * time.Millisecond, 2 * time.Second}).Draw(t, "dur")
 		case "errcode":
-			if rapid.IntRange(0, 3).Draw(t, "fatal") == 0 {
+			isFatal := rapid.IntRange(0, 3).Draw(t, "fatal") == 0
+			if f.FatalCodesRare {
+				isFatal = isFatal && fatalPlan
+			}
+			if isFatal {
 				s.Code = rapid.SampledFrom(fatalCodes).Draw(t, "code")
 			} else {
 				s.Code = rapid.SampledFrom(retriableCodes).Draw(t, "code")
 			}
+		case "appenderr":
+			s.Code = rapid.SampledFrom([]int16{kerr.RequestTimedOut.Code, kerr.NotEnoughReplicasAfterAppend.Code}).Draw(t, "code")
 		case "move":
 			s.Topic = rapid.IntRange(0, nt-1).Draw(t, "topic")
 			s.Partition = int32(rapid.IntRange(0, int(p.Parts[s.Topic])-1).Draw(t, "partition"))
 			s.Node = rapid.IntRange(0, p.Brokers-1).Draw(t, "node")
 		case "sleep":
 			s.Dur = rapid.SampledFrom([]time.Duration{time.Second, 10 * time.Second, 2 * time.Minute}).Draw(t, "dur")
+		}
+		if fatalPlan {
+			switch {
+			case s.Kind == "netfault" && s.Act != bubble.KillBefore:
+				s.Act = bubble.KillBefore
+			case s.Kind == "killall" || s.Kind == "appenderr":
+				s.Kind = "sleep"
+				s.Dur = time.Second
+			}
 		}
 		p.Steps = append(p.Steps, s)
 	}
@@ -186,27 +206,27 @@ func GenProdPlan(t *rapid.T, f ProdFocus) ProdPlan {
 
 // RecState is everything observed about one record handed to the client.
 type RecState struct {
-	ID         int64
-	Topic      string
-	Partition  int32
-	Mode       string
-	Rec        *kgo.Record
-	Step       int
-	CallStart  int   // log index when the produce call started
-	CallEnd    int   // log index when the produce call returned (-1 if it never did)
-	Promises   int32 // number of promise invocations
-	PromiseN   int   // log index of the first promise
-	PromiseErr error
-	PromOffset int64
-	PromPart   int32
-	WrongRec   bool // promise was invoked with a different *Record
-	Buffered   int32 // OnProduceRecordBuffered count
-	Unbuffered int32
-	UnbufErr   error
-	UnbufN     int
-	TryErrNow  bool // TryProduce failed with ErrMaxBuffered without any virtual time passing
-	BytesLen   int
-	CtxCancel  bool // its context was (scheduled to be) cancelled
+	ID              int64
+	Topic           string
+	Partition       int32
+	Mode            string
+	Rec             *kgo.Record
+	Step            int
+	CallStart       int   // log index when the produce call started
+	CallEnd         int   // log index when the produce call returned (-1 if it never did)
+	Promises        int32 // number of promise invocations
+	PromiseN        int   // log index of the first promise
+	PromiseErr      error
+	PromOffset      int64
+	PromPart        int32
+	WrongRec        bool  // promise was invoked with a different *Record
+	Buffered        int32 // OnProduceRecordBuffered count
+	Unbuffered      int32
+	UnbufErr        error
+	UnbufN          int
+	TryErrNow       bool // TryProduce failed with ErrMaxBuffered without any virtual time passing
+	BytesLen        int
+	CtxCancel       bool // its context was (scheduled to be) cancelled
 	InFlightAtFault bool
 }
 
@@ -228,44 +248,44 @@ type FlushObs struct {
 
 // ProdObs is the complete observation of one executed plan.
 type ProdObs struct {
-	Plan      ProdPlan
-	Recs      []*RecState
-	byPtr     sync.Map // *kgo.Record -> *RecState
-	Flushes   []*FlushObs
-	Aborts    []*FlushObs
-	Log       *bubble.History
-	Net       *bubble.Net
-	Env       *bubble.Env
-	DoublePromise atomic.Int32
-	UnknownPromise atomic.Int32
-	MaxAccepted    atomic.Int64 // max of (buffered-hook count - promises) sampled in hooks
-	MaxAcceptedBytes atomic.Int64
-	accepted       atomic.Int64
-	acceptedBytes  atomic.Int64
-	BufSamples     []int64 // BufferedProduceRecords sampled after every step
-	LimitHit       bool
-	FailurePaths   map[string]int
-	InflightAtFailure bool
-	FinalBufferedRecs  int64
-	FinalBufferedBytes int64
-	CloseReturned      bool
-	CloseTook          time.Duration
-	PromisesAfterClose int
-	AllPromisedAtQuiescence bool
-	FinalFlushErr      error
-	FinalFlushReturned bool
-	KgoGoroutinesAfterClose []string
-	mu sync.Mutex
-	ClientClosed atomic.Bool
+	Plan                         ProdPlan
+	Recs                         []*RecState
+	byPtr                        sync.Map // *kgo.Record -> *RecState
+	Flushes                      []*FlushObs
+	Aborts                       []*FlushObs
+	Log                          *bubble.History
+	Net                          *bubble.Net
+	Env                          *bubble.Env
+	DoublePromise                atomic.Int32
+	UnknownPromise               atomic.Int32
+	MaxAccepted                  atomic.Int64 // max of (buffered-hook count - promises) sampled in hooks
+	MaxAcceptedBytes             atomic.Int64
+	accepted                     atomic.Int64
+	acceptedBytes                atomic.Int64
+	BufSamples                   []int64 // BufferedProduceRecords sampled after every step
+	LimitHit                     bool
+	FailurePaths                 map[string]int
+	InflightAtFailure            bool
+	FinalBufferedRecs            int64
+	FinalBufferedBytes           int64
+	CloseReturned                bool
+	CloseTook                    time.Duration
+	PromisesAfterClose           int
+	AllPromisedAtQuiescence      bool
+	FinalFlushErr                error
+	FinalFlushReturned           bool
+	KgoGoroutinesAfterClose      []string
+	mu                           sync.Mutex
+	ClientClosed                 atomic.Bool
 	BlockedProduceReturnedInTime bool
-	StepKinds []string
-	Quiescents []QSample
-	GaugeViolations []string
-	started, finished atomic.Int64
-	CallDur map[int64]time.Duration // produce/try call virtual duration per record id
-	Client    *kgo.Client
-	QuiescentChecked bool
-	cancels   []context.CancelFunc
+	StepKinds                    []string
+	Quiescents                   []QSample
+	GaugeViolations              []string
+	started, finished            atomic.Int64
+	CallDur                      map[int64]time.Duration // produce/try call virtual duration per record id
+	Client                       *kgo.Client
+	QuiescentChecked             bool
+	cancels                      []context.CancelFunc
 }
 
 type prodHooks struct{ o *ProdObs }
@@ -367,6 +387,32 @@ func produceErrResp(req *kmsg.ProduceRequest, code int16) kmsg.Response {
 	return resp
 }
 
+// RewriteProduceErr turns a produce response (correlation id onwards) into one that
+// reports code for every partition although the broker appended the batches.
+func RewriteProduceErr(version int16, body []byte, code int16) []byte {
+	resp := kmsg.NewPtrProduceResponse()
+	resp.Version = version
+	hdr := 4
+	if resp.IsFlexible() {
+		hdr = 5
+		if len(body) < 5 || body[4] != 0 {
+			return nil
+		}
+	}
+	if len(body) < hdr || resp.ReadFrom(body[hdr:]) != nil {
+		return nil
+	}
+	for i := range resp.Topics {
+		for j := range resp.Topics[i].Partitions {
+			if resp.Topics[i].Partitions[j].ErrorCode == 0 {
+				resp.Topics[i].Partitions[j].ErrorCode = code
+				resp.Topics[i].Partitions[j].BaseOffset = -1
+			}
+		}
+	}
+	return resp.AppendTo(append([]byte(nil), body[:hdr]...))
+}
+
 const unknownTopic = "nope"
 
 // Bound is the virtual-time bound used only to report hangs.
@@ -424,7 +470,7 @@ func RunProd(e *bubble.Env, p ProdPlan, extraOpts ...kgo.Opt) *ProdObs {
 		}
 		o.StepKinds = append(o.StepKinds, s.Kind)
 		switch s.Kind {
-		case "abort", "purge", "netfault", "killall", "errcode", "move", "deltopic", "cancelctx":
+		case "abort", "purge", "netfault", "killall", "errcode", "appenderr", "move", "deltopic", "cancelctx":
 			if cl.BufferedProduceRecords() > 0 {
 				o.InflightAtFailure = true
 			}
@@ -578,6 +624,15 @@ func RunProd(e *bubble.Env, p ProdPlan, extraOpts ...kgo.Opt) *ProdObs {
 			e.Net.AddRuleNext(s.Key, s.Act, s.Dur)
 			o.mu.Lock()
 			o.FailurePaths["net-"+s.Act.String()]++
+			o.mu.Unlock()
+		case "appenderr":
+			code := s.Code
+			o.Log.Add("appenderr", int64(code), "", nil, 0, 0)
+			e.Net.AddRule(bubble.Rule{Key: 0, Nth: 0, Act: bubble.RewriteResponse, Code: code, Rewrite: func(ri *bubble.ReqInfo, body []byte) []byte {
+				return RewriteProduceErr(ri.Version, body, code)
+			}})
+			o.mu.Lock()
+			o.FailurePaths[fmt.Sprintf("appended-but-code-%d", code)]++
 			o.mu.Unlock()
 		case "killall":
 			o.Log.Add("killall", 0, "", nil, 0, 0)
